@@ -46,8 +46,8 @@ MANIFEST = dict(
          "player-side files, through pointers laundered via integers or non-local storage. Effect code other than update_invloop is "
          "covered by the writer list and the oracle, not modelled. Reads of the patch loops (16-bit stereo bidirectional with end=0 would "
          "read in front of the guard) are excluded by libxmp_load_sample's lps<lpe sanitation (assumed, C03). Instrument extras blobs "
-         "(MED/HMN) and the module header/order list are not part of the digest verdict (header changes are counted). Finding fixed "
-         "during construction: invloop-past-loop-end (7d6aa67). Trusted: Lean kernel, clang's AST + the walk in gen_data_writers.py, the "
+         "(MED/HMN) and the module header/order list are not part of the digest verdict (header changes are counted). Findings fixed "
+         "during construction: invloop-past-loop-end (7d6aa67), invloop-while-off (8676683). Trusted: Lean kernel, clang's AST + the walk in gen_data_writers.py, the "
          "harnesses and differ, ASan's allocation extents.",
     technique="Lean 4 proof (pointwise memory lemmas, frame + restore lemma, invariant over the control skeleton, decide over generated "
               "lists / abstract interpretation of a generated token stream) + clang-AST translator + differential correspondence + "
@@ -57,7 +57,8 @@ MANIFEST = dict(
 NS = "Xmp.Wrap."
 REQUIRED = [NS + n for n in ("C15_restore", "C15_patch_frame", "C15_reset_frame", "C15_patch_in_bounds", "C15_guard_aligned",
                              "C15_voice_bounds", "C15_patch_in_bounds_wf",
-                             "C15_skeleton_shape", "C15_invloop_in_loop", "C15_skeleton_voice", "C15_skeleton_kernel_view", "C15_skeleton", "C15_writers",
+                             "C15_skeleton_shape", "C15_invloop_in_loop", "C15_invloop_count_inv", "C15_invloop_off_silent_step",
+                             "C15_invloop_off_silent", "C15_skeleton_voice", "C15_skeleton_kernel_view", "C15_skeleton", "C15_writers",
                              "C15_writers_nonvacuous")]
 
 
@@ -221,13 +222,16 @@ def digest_shard(args):
 
 # past failures, run first on every run: (case seed, ops, module relative to the repository).  The first three made
 # update_invloop flip the byte AT the loop end before the repair 7d6aa67 (signature invloop-past-loop-end).
+# NOTE: the harness draws all decisions added after these were recorded from a second RNG stream, so the histories stay the same.
 REGRESSION = [(2000021, 300, "test-dev/data/ode2ptk.mod"), (2000019, 300, "test-dev/data/ode2ptk.mod"),
-              (2000023, 300, "test-dev/data/ode2ptk.mod"), (2000027, 300, "test-dev/data/ode2ptk.mod")]
+              (2000023, 300, "test-dev/data/ode2ptk.mod"), (2000027, 300, "test-dev/data/ode2ptk.mod"),
+              # update_invloop fired at speed 0 from a stale counter before the repair 8676683 (invloop-while-off)
+              (15485918457630, 500, "test-dev/data/bzip2data")]
 
 
 def regression_shard(args):
     exe, cs, nops, path = args
-    rc, out, err = vlib.run_exe(exe, ["one", str(cs), str(nops), path], timeout=1200)
+    rc, out, err = vlib.run_exe(exe, ["one", str(cs), str(nops), path, "-g1"], timeout=1200)
     return rc, out.decode("latin-1"), err
 
 
@@ -295,7 +299,9 @@ def do_digest(ck, exe, mods, nshards, ncases, nops, stats):
         for l in out.splitlines():
             if l.startswith("case "):
                 f = l.split(" ")
-                cur = {"case_seed": int(f[1]), "nops": int(f[2]), "path": f[3], "line": l}
+                cur = {"case_seed": int(f[1]), "nops": int(f[2]), "path": f[3], "line": l, "gen": 1 if " gen=1 " in l else 2}
+                stats["digest_cases_mutated_events"] += " mut=0" not in l
+                stats["digest_cases_extreme_c5spd"] += not l.endswith("c5spd=0")
                 stats["digest_cases"] += 1
                 stats["digest_cases_with_invloop_fx"] += "invloopfx=1" in l
                 stats["digest_interp_" + re.search(r"interp=(\d)", l).group(1)] += 1
@@ -304,7 +310,7 @@ def do_digest(ck, exe, mods, nshards, ncases, nops, stats):
             elif l.startswith("o_fail ") and cur:
                 f = l.split(" ", 3)
                 ck.violation(f[1], {"how": "python3 tools/check.py C15 --replay <this file>  (runs: c15_digest one <case_seed> <nops> <path> -v)",
-                                    "case_seed": cur["case_seed"], "nops": cur["nops"], "path": cur["path"], "oracle": l},
+                                    "case_seed": cur["case_seed"], "nops": cur["nops"], "path": cur["path"], "gen": cur["gen"], "oracle": l},
                              "module data changed across an API call: %s [%s]" % (l[7:], os.path.basename(cur["path"])))
             elif l.startswith("end frames=") and cur:
                 fr = int(l.split("=")[1])
@@ -374,7 +380,7 @@ def replay(ck, rp):
     r = rp.get("replay", {})
     if isinstance(r, dict) and "case_seed" in r:
         exe = vlib.build_harness("c15_digest", ["c15_digest.c"])
-        rc, out, err = vlib.run_exe(exe, ["one", str(r["case_seed"]), str(r["nops"]), r["path"], "-v"])
+        rc, out, err = vlib.run_exe(exe, ["one", str(r["case_seed"]), str(r["nops"]), r["path"], "-v"] + (["-g1"] if r.get("gen") == 1 else []))
         text = out.decode("latin-1")
         fails = [l for l in text.splitlines() if l.startswith("o_fail")]
         print("\n".join(text.splitlines()[-25:]))
